@@ -139,11 +139,6 @@ mod ir_builder {
                         locals:fn_local()*
                         blocks:block_decl()*
                     "}" _ {
-                    // TODO: Remove once old decoding is removed.
-                    //       In the case of old decoding, every entry is at the same time an original entry, but in the IR
-                    //       we mark them only as `entry`s so there is a bit of information lost at the roundtrip.
-                    //       Remove this hack to recognize the new encoding once it becomes the only encoding.
-                    let is_original_entry = is_original_entry || (is_entry && !name.starts_with("__entry"));
                     IrAstFnDecl {
                         name,
                         args,
@@ -1225,6 +1220,14 @@ mod ir_builder {
                 })
                 .collect();
             let ret_type = fn_decl.ret_type.to_ir_type(context);
+            // TODO: Remove once old encoding is removed.
+            //       In the case of old encoding, every entry is at the same time an original entry, but in the IR
+            //       we print them only as `entry`s so there is a bit of information lost at the roundtrip.
+            //       With the new encoding the printer emits `entry_orig` explicitly, so nothing must be inferred.
+            let is_original_entry = fn_decl.is_original_entry
+                || (!context.experimental.new_encoding
+                    && fn_decl.is_entry
+                    && !fn_decl.name.starts_with("__entry"));
             let func = Function::new(
                 context,
                 self.module,
@@ -1235,7 +1238,7 @@ mod ir_builder {
                 fn_decl.selector,
                 fn_decl.is_public,
                 fn_decl.is_entry,
-                fn_decl.is_original_entry,
+                is_original_entry,
                 fn_decl.is_fallback,
                 convert_md_idx(&fn_decl.metadata),
             );
